@@ -267,6 +267,12 @@ impl Dictionary {
         }
         self.data.connector.map_connection_ids(&mapper);
         self.data.unk_handler.map_connection_ids(&mapper);
+        // The stored mapper must translate original ids, so successive mappings are composed.
+        let mapper = if let Some(prev) = self.data.mapper.as_ref() {
+            prev.compose(&mapper)
+        } else {
+            mapper
+        };
         self.data.mapper = Some(mapper);
         Ok(self)
     }
